@@ -168,6 +168,7 @@ func errClassOK(modelErr string, implText string) bool {
 }
 
 var monitors = map[string]bool{}
+var modelDialect = "sqlite"
 
 type runner struct {
 	drv    *lean.Driver
@@ -201,7 +202,7 @@ func (r *runner) runScript(script [][][]*t_aio.Command, dialect string) (int, M)
 				prevDump = cur
 			}
 		}
-		rep, _, err := r.drv.Call(batchJSON(txs, dialect))
+		rep, _, err := r.drv.Call(batchJSON(txs, modelDialect))
 		if err != nil {
 			return bi, M{"harness": err.Error(), "impl": obs}
 		}
@@ -393,8 +394,13 @@ func main() {
 	replay := flag.String("replay", "", "replay a script file instead of generating")
 	corpus := flag.String("corpus", "", "directory of script files to run first")
 	out := flag.String("out", "", "summary JSON path")
+	dialect := flag.String("dialect", "sqlite", "which generated definitions the MODEL uses (pg: Postgres definitions against the real sqlite store, inside DialectSafe)")
 	mon := flag.String("monitor", "", "comma-separated property ids whose monitors run on the implementation dumps")
 	flag.Parse()
+	modelDialect = *dialect
+	if *dialect == "pg" {
+		gen.DialectSafe()
+	}
 	for _, m := range strings.Split(*mon, ",") {
 		if m != "" {
 			monitors[m] = true
